@@ -33,20 +33,32 @@ fn small_ontology(n: u32, tree: bool) -> Ontology {
     b.connect_all_terms().calculate_information_content().unwrap().build_minimal()
 }
 
-/// seeded symmetric distance of two id sets. The low 2 bits of the seed select the range:
-/// (0.05, 1.05) | (-0.5, 0.5) (a user distance like 1 - similarity may be negative) | (0, 1000) | (-3, -2)
+/// seeded symmetric distance of two id sets. seed % 5 selects the range:
+/// (0.05, 1.05) | (-0.5, 0.5) (a user distance like 1 - similarity may be negative) | (0, 1000) | (-3, -2) | (1e-9, 2e-9)
 fn dist(seed: u64, a: &[u32], b: &[u32]) -> f32 {
     let ha = hash_u64s(&a.iter().map(|x| u64::from(*x)).collect::<Vec<_>>());
     let hb = hash_u64s(&b.iter().map(|x| u64::from(*x)).collect::<Vec<_>>());
     let (x, y) = if ha <= hb { (ha, hb) } else { (hb, ha) };
     let h = hash_u64s(&[seed, x, y]);
     let u = ((h >> 40) as f32) / ((1u64 << 24) as f32);
-    match seed & 3 {
+    match seed % 5 {
         0 => 0.05 + u,
         1 => u - 0.5,
         2 => u * 1000.0,
-        _ => u - 3.0,
+        3 => u - 3.0,
+        _ => (1.0 + u) * 1e-9, // tiny scale: neighbouring values differ by far less than f32::EPSILON
     }
+}
+
+/// `dist` with one designated unordered pair of input sets at +infinity (a distance like 1/similarity of
+/// unrelated sets)
+fn dist_inf(seed: u64, inf_pair: Option<&(Vec<u32>, Vec<u32>)>, a: &[u32], b: &[u32]) -> f32 {
+    if let Some((x, y)) = inf_pair {
+        if (a == x.as_slice() && b == y.as_slice()) || (a == y.as_slice() && b == x.as_slice()) {
+            return f32::INFINITY;
+        }
+    }
+    dist(seed, a, b)
 }
 
 fn set_ids(s: &HpoSet) -> Vec<u32> {
@@ -91,7 +103,7 @@ impl Monitor for C17 {
     }
     fn mandatory_buckets(&self, _tier: Tier) -> Vec<String> {
         let mut v: Vec<String> = METHODS.iter().map(|m| format!("method/{m}")).collect();
-        for b in ["merge/two_inputs", "merge/input_and_cluster", "merge/two_clusters", "exact_replay_completed", "n/2", "distance_range/mixed_sign", "distance_range/negative", "distance_range/large", "input/empty_set", "input/identical_sets", "input/set_with_ancestor_and_descendant"] {
+        for b in ["merge/two_inputs", "merge/input_and_cluster", "merge/two_clusters", "exact_replay_completed", "n/2", "distance_range/mixed_sign", "distance_range/negative", "distance_range/large", "distance_range/tiny", "distance/one_infinite_pair", "input/iterator_with_inexact_size_hint", "input/empty_set", "input/identical_sets", "input/set_with_ancestor_and_descendant"] {
             v.push(b.to_string());
         }
         v
@@ -111,7 +123,7 @@ impl Monitor for C17 {
         let tree = rng.chance(1, 2);
         let ont = small_ontology(n_terms, tree);
         let dseed = rng.next_u64();
-        out.bucket(["distance_range/positive", "distance_range/mixed_sign", "distance_range/large", "distance_range/negative"][(dseed & 3) as usize]);
+        out.bucket(["distance_range/positive", "distance_range/mixed_sign", "distance_range/large", "distance_range/negative", "distance_range/tiny"][(dseed % 5) as usize]);
         // distinct sets; one of them may be empty
         let mut sets: Vec<Vec<u32>> = Vec::new();
         let mut seen: BTreeSet<Vec<u32>> = BTreeSet::new();
@@ -141,6 +153,17 @@ impl Monitor for C17 {
         if tree && sets.iter().any(|s| s.iter().any(|a| s.iter().any(|b| a != b && { let mut x = *b; let mut anc = false; while x > 1 { x /= 2; if x == *a { anc = true; } } anc }))) {
             out.bucket("input/set_with_ancestor_and_descendant");
         }
+        let inf_pair: Option<(Vec<u32>, Vec<u32>)> = if !allow_identical && rng.chance(1, 6) {
+            let i = rng.usize_below(n);
+            let mut j = rng.usize_below(n);
+            if j == i {
+                j = (i + 1) % n;
+            }
+            out.bucket("distance/one_infinite_pair");
+            Some((sets[i].clone(), sets[j].clone()))
+        } else {
+            None
+        };
         out.sig = hash_u64s(&[dseed, n as u64, method as u64, hash_u64s(&sets.iter().flatten().map(|x| u64::from(*x)).collect::<Vec<_>>())]);
         out.nontrivial = n >= 3;
         out.bucket(&format!("method/{}", METHODS[method]));
@@ -158,7 +181,7 @@ impl Monitor for C17 {
             let res: Vec<f32> = combs
                 .map(|(a, b)| {
                     let (ia, ib) = (set_ids(a), set_ids(b));
-                    let d = dist(dseed, &ia, &ib);
+                    let d = dist_inf(dseed, inf_pair.as_ref(), &ia, &ib);
                     pairs.push((ia, ib));
                     d
                 })
@@ -166,9 +189,22 @@ impl Monitor for C17 {
             log.borrow_mut().push(pairs);
             res
         };
+        let inexact_hint = rng.chance(1, 2);
+        if inexact_hint {
+            out.bucket("input/iterator_with_inexact_size_hint");
+        }
         bump(&mut out.events, "Linkage::new");
         let res = guard(|| {
-            let hsets: Vec<HpoSet> = sets.iter().map(|s| HpoSet::new(&ont, HpoGroup::from(s.clone()))).collect();
+            // the sets arrive through an iterator whose size_hint differs from the real count in half of the
+            // cases (filter: lower bound 0; chained decoys that are filtered out again: upper bound too large)
+            let real: Vec<HpoSet> = sets.iter().map(|s| HpoSet::new(&ont, HpoGroup::from(s.clone()))).collect();
+            let decoys: Vec<HpoSet> = (0..3).map(|_| HpoSet::new(&ont, HpoGroup::from(vec![1u32]))).collect();
+            let n_real = real.len();
+            let hsets: Box<dyn Iterator<Item = HpoSet>> = if inexact_hint {
+                Box::new(real.into_iter().chain(decoys).enumerate().filter(move |(i, _)| *i < n_real).map(|(_, s)| s))
+            } else {
+                Box::new(real.into_iter())
+            };
             let linkage = match method {
                 0 => Linkage::single(hsets, &cb),
                 1 => Linkage::complete(hsets, &cb),
@@ -258,7 +294,7 @@ impl Monitor for C17 {
         let mut d: BTreeMap<(usize, usize), f32> = BTreeMap::new();
         for i in 0..n {
             for j in i + 1..n {
-                d.insert((i, j), dist(dseed, &sets[i], &sets[j]));
+                d.insert((i, j), dist_inf(dseed, inf_pair.as_ref(), &sets[i], &sets[j]));
             }
         }
         let key = |a: usize, b: usize| (a.min(b), a.max(b));
@@ -285,7 +321,8 @@ impl Monitor for C17 {
                 }
             }
             let Some(((a, b), bv)) = best else { break };
-            if (second - bv).abs() <= 1e-6 * bv.abs().max(1.0) {
+            // the library selects with an exact `<`; only exact equality (incl. two infinities) is a tie
+            if second == bv {
                 out.bucket("tie_skipped");
                 exact = false;
                 break;
@@ -300,7 +337,9 @@ impl Monitor for C17 {
                 exact = false;
                 break;
             }
-            out.check((mg.distance - bv).abs() <= 1e-6 * bv.abs().max(1.0), "C17", &format!("merge_distance/{m}"), || format!("merge {k} ({a},{b}) reports distance {}, model {bv}", mg.distance));
+            // min / max / user distances are passed through unchanged and the mean is the same f32 expression:
+            // the reported distance must be bit-identical
+            out.check(mg.distance.to_bits() == bv.to_bits(), "C17", &format!("merge_distance/{m}"), || format!("merge {k} ({a},{b}) reports distance {:e}, model {bv:e}", mg.distance));
             // update
             let new_idx = n + k;
             let sa = live.remove(&a).unwrap();
@@ -326,7 +365,7 @@ impl Monitor for C17 {
                     0 => da.min(db),
                     1 => da.max(db),
                     2 => (da + db) / 2.0,
-                    _ => dist(dseed, &united, so),
+                    _ => dist_inf(dseed, inf_pair.as_ref(), &united, so),
                 };
                 d.insert(key(*o, new_idx), nd);
             }
